@@ -655,6 +655,8 @@ class Observer:
         if label.startswith('dup:') and self.prev is not None:
             if (wf, tasks, acts) != (self.prev[0], self.prev[2], self.prev[3]):
                 kind = label[4:6]
+                if kind == 'ST' and label[4:].startswith('ST(') and label[4:].rstrip(')').split(',')[2:3] == ['1']:
+                    kind = 'ST-rerun'      # the start request of an operator rerun (first=0, rerun=1) delivered again
                 self.fail('C06', 'duplicate-changed-state:%s' % kind,
                           'redelivered %s changed the run: %s -> %s' % (label[4:], (self.prev[0], self.prev[2], self.prev[3]), (wf, tasks, acts)))
         # C01: a post-commit operation that raised was logged and swallowed = a lost message
